@@ -86,4 +86,188 @@ theorem rsh_of_dvd_fits {p n : Nat} (hodd : p % 2 = 1) {x : Int} (hd : (2 : Int)
     (hf : Fits p (x / (2 : Int) ^ n)) : rsh p n x = x / (2 : Int) ^ n := by
   rw [rsh_of_dvd hodd hd, norm_of_fits hf]
 
+
+/-! ### truncation -/
+
+def IsBits (bs : List Int) : Prop := ∀ b ∈ bs, b = 0 ∨ b = 1
+
+theorem bitsVal_range : ∀ (bs : List Int), IsBits bs → 0 ≤ bitsVal bs ∧ bitsVal bs < (2 : Int) ^ bs.length
+  | [], _ => by simp [bitsVal]
+  | b :: bs, h => by
+    have hb : b = 0 ∨ b = 1 := h b (by simp)
+    have ih := bitsVal_range bs (fun c hc => h c (by simp [hc]))
+    simp only [bitsVal, List.length_cons, pow_succ]
+    rcases hb with rfl | rfl <;> omega
+
+/-- adding a random `r ∈ [0, D)` before flooring gives the floor or the floor plus one, and the floor
+itself when `D ∣ x` -/
+theorem floor_add_small (x r D : Int) (hD : 0 < D) (hr0 : 0 ≤ r) (hr : r < D) :
+    ((x + r) / D = x / D ∨ (x + r) / D = x / D + 1) ∧ (D ∣ x → (x + r) / D = x / D) := by
+  have hx := Int.mul_ediv_add_emod x D
+  have hs0 := Int.emod_nonneg x hD.ne'
+  have hs1 := Int.emod_lt_of_pos x hD
+  have key : (x + r) / D = x / D + (x % D + r) / D := by
+    have : x + r = (x % D + r) + D * (x / D) := by linarith
+    rw [this, Int.add_mul_ediv_left _ _ hD.ne']; ring
+  constructor
+  · rcases lt_or_ge (x % D + r) D with h | h
+    · left; rw [key, Int.ediv_eq_zero_of_lt (by linarith) h]; ring
+    · right
+      have h2 : (x % D + r) / D = 1 := by
+        have : x % D + r = (x % D + r - D) + D * 1 := by ring
+        rw [this, Int.add_mul_ediv_left _ _ hD.ne', Int.ediv_eq_zero_of_lt (by linarith) (by linarith)]; ring
+      rw [key, h2]
+  · intro hd
+    have h0 : x % D = 0 := Int.emod_eq_zero_of_dvd hd
+    rw [key, h0, zero_add, Int.ediv_eq_zero_of_lt hr0 hr]; ring
+
+/-- the value computed by `trunc` for ANY randomness in range: `⌊(x + r) / 2^d⌋` with `r` the value of
+the random bits.  Hypotheses: `p` odd; `d` random bits; `d < l`; the masked value opened by the
+protocol does not wrap modulo `p` (`hlo`, `hhi`: guaranteed by `x ≥ -2^(l-1)`, `rdiv ≥ 0` and
+`p > 2^(l+k+1)`); the result is a signed representative (`hfit`). -/
+theorem trunc_eq {p d l : Nat} (hodd : p % 2 = 1) {x : Int} {rbits : List Int} {rdiv : Int}
+    (hb : IsBits rbits) (hlen : rbits.length = d) (hdl : d < l)
+    (hlo : 0 ≤ x + (2 : Int) ^ (l - 1) + rdiv * (2 : Int) ^ d)
+    (hhi : x + (2 : Int) ^ d + (2 : Int) ^ (l - 1) + rdiv * (2 : Int) ^ d ≤ p)
+    (hfit : Fits p ((x + bitsVal rbits) / (2 : Int) ^ d)) :
+    trunc p d l x rbits rdiv = (x + bitsVal rbits) / (2 : Int) ^ d := by
+  obtain ⟨hr0, hr1⟩ := bitsVal_range rbits hb
+  rw [hlen] at hr1
+  set r := bitsVal rbits with hr
+  set D : Int := (2 : Int) ^ d with hD
+  have hDpos : 0 < D := two_pow_pos d
+  have hl : (2 : Int) ^ (l - 1) = D * (2 : Int) ^ (l - 1 - d) := by
+    rw [hD, ← pow_add]; congr 1; omega
+  unfold trunc truncE
+  simp only []
+  rw [← hr, ← hD]
+  have hS : pmod (x + r + ((2 : Int) ^ (l - 1) + rdiv * D)) p = x + r + ((2 : Int) ^ (l - 1) + rdiv * D) :=
+    pmod_of_range (by linarith) (by linarith)
+  rw [hS]
+  have hc : (x + r + ((2 : Int) ^ (l - 1) + rdiv * D)) % D = (x + r) % D := by
+    rw [hl]
+    have : x + r + (D * (2 : Int) ^ (l - 1 - d) + rdiv * D) = (x + r) + D * ((2 : Int) ^ (l - 1 - d) + rdiv) := by ring
+    rw [this, Int.add_mul_emod_self_left]
+  rw [hc]
+  have hq : x + r - (x + r) % D = D * ((x + r) / D) := by
+    have := Int.mul_ediv_add_emod (x + r) D; linarith
+  rw [hq]
+  have hdvd : D ∣ D * ((x + r) / D) := Dvd.intro _ rfl
+  rw [rsh_of_dvd_fits hodd hdvd (by rw [Int.mul_ediv_cancel_left _ hDpos.ne']; exact hfit),
+    Int.mul_ediv_cancel_left _ hDpos.ne']
+
+theorem fits_of_abs_le {p : Nat} {x y : Int} (h : |x| ≤ |y| + 1) (hy : 2 * (|y| + 1) < p) : Fits p x := by
+  unfold Fits; linarith
+
+/-! ### the integrality invariant -/
+
+/-- a flag that is set is right: the scaled value is a multiple of `2^f` -/
+def FInv (f : Nat) (v : V) : Prop := v.flag = true → (2 : Int) ^ f ∣ v.A
+
+def FInvL (f : Nat) (xs : List V) : Prop := ∀ v ∈ xs, FInv f v
+
+theorem allFlags_iff (xs : List V) : allFlags xs = true ↔ ∀ v ∈ xs, v.flag = true := by
+  unfold allFlags; simp [List.all_eq_true]
+
+theorem dvd_of_allFlags {f : Nat} {xs : List V} (h : FInvL f xs) (ha : allFlags xs = true) :
+    ∀ v ∈ xs, (2 : Int) ^ f ∣ v.A :=
+  fun v hv => h v hv ((allFlags_iff xs).1 ha v hv)
+
+theorem dvd_sumA {f : Nat} : ∀ (xs : List V), (∀ v ∈ xs, (2 : Int) ^ f ∣ v.A) → (2 : Int) ^ f ∣ sumA xs
+  | [], _ => by simp [sumA]
+  | x :: xs, h => by
+    simp only [sumA]
+    exact Int.dvd_add (h x (by simp)) (dvd_sumA xs (fun v hv => h v (by simp [hv])))
+
+theorem dvd_dotA {f : Nat} : ∀ (xs ys : List V), (∀ v ∈ xs, (2 : Int) ^ f ∣ v.A) → (∀ v ∈ ys, (2 : Int) ^ f ∣ v.A) →
+    (2 : Int) ^ f * (2 : Int) ^ f ∣ dotA xs ys
+  | [], _, _, _ => by simp [dotA]
+  | _ :: _, [], _, _ => by simp [dotA]
+  | x :: xs, y :: ys, hx, hy => by
+    simp only [dotA]
+    exact Int.dvd_add (mul_dvd_mul (hx x (by simp)) (hy y (by simp)))
+      (dvd_dotA xs ys (fun v hv => hx v (by simp [hv])) (fun v hv => hy v (by simp [hv])))
+
+theorem dvd_dotA_left {f : Nat} : ∀ (xs ys : List V), (∀ v ∈ xs, (2 : Int) ^ f ∣ v.A) → (2 : Int) ^ f ∣ dotA xs ys
+  | [], _, _ => by simp [dotA]
+  | _ :: _, [], _ => by simp [dotA]
+  | x :: xs, y :: ys, hx => by
+    simp only [dotA]
+    exact Int.dvd_add (Dvd.dvd.mul_right (hx x (by simp)) _) (dvd_dotA_left xs ys (fun v hv => hx v (by simp [hv])))
+
+theorem dvd_dotA_right {f : Nat} : ∀ (xs ys : List V), (∀ v ∈ ys, (2 : Int) ^ f ∣ v.A) → (2 : Int) ^ f ∣ dotA xs ys
+  | [], _, _ => by simp [dotA]
+  | _ :: _, [], _ => by simp [dotA]
+  | x :: xs, y :: ys, hy => by
+    simp only [dotA]
+    exact Int.dvd_add (Dvd.dvd.mul_left (hy y (by simp)) _) (dvd_dotA_right xs ys (fun v hv => hy v (by simp [hv])))
+
+/-- quotient of a multiple of `2^f * 2^f` by `2^f` is a multiple of `2^f` -/
+theorem dvd_ediv_of_sq_dvd {f : Nat} {s : Int} (h : (2 : Int) ^ f * (2 : Int) ^ f ∣ s) :
+    (2 : Int) ^ f ∣ s / (2 : Int) ^ f := by
+  obtain ⟨k, rfl⟩ := h
+  rw [mul_assoc, Int.mul_ediv_cancel_left _ (two_pow_pos f).ne']
+  exact Dvd.intro _ rfl
+
+theorem dvd_of_sq_dvd {f : Nat} {s : Int} (h : (2 : Int) ^ f * (2 : Int) ^ f ∣ s) : (2 : Int) ^ f ∣ s :=
+  dvd_trans (Dvd.intro _ rfl) h
+
+/-- both factors multiples of `2^f`: the field shift of the product is the integer quotient, again a multiple -/
+theorem rsh_mul_dvd {p f : Nat} (hodd : p % 2 = 1) {s : Int} (h : (2 : Int) ^ f * (2 : Int) ^ f ∣ s)
+    (hfit : Fits p (s / (2 : Int) ^ f)) : (2 : Int) ^ f ∣ rsh p f s := by
+  rw [rsh_of_dvd_fits hodd (dvd_of_sq_dvd h) hfit]
+  exact dvd_ediv_of_sq_dvd h
+
+theorem inv_zipAdd {f : Nat} : ∀ (xs ys : List V) (fl : Bool),
+    (fl = true → (∀ v ∈ xs, (2 : Int) ^ f ∣ v.A) ∧ (∀ v ∈ ys, (2 : Int) ^ f ∣ v.A)) → FInvL f (zipAdd xs ys fl)
+  | [], _, _, _ => by simp [zipAdd, FInvL]
+  | _ :: _, [], _, _ => by simp [zipAdd, FInvL]
+  | x :: xs, y :: ys, fl, h => by
+    intro v hv
+    simp only [zipAdd, List.mem_cons] at hv
+    rcases hv with rfl | hv
+    · intro hfl
+      obtain ⟨hx, hy⟩ := h hfl
+      exact Int.dvd_add (hx x (by simp)) (hy y (by simp))
+    · exact inv_zipAdd xs ys fl (fun hfl => ⟨fun v hv => (h hfl).1 v (by simp [hv]), fun v hv => (h hfl).2 v (by simp [hv])⟩) v hv
+
+theorem inv_zipSub {f : Nat} : ∀ (xs ys : List V) (fl : Bool),
+    (fl = true → (∀ v ∈ xs, (2 : Int) ^ f ∣ v.A) ∧ (∀ v ∈ ys, (2 : Int) ^ f ∣ v.A)) → FInvL f (zipSub xs ys fl)
+  | [], _, _, _ => by simp [zipSub, FInvL]
+  | _ :: _, [], _, _ => by simp [zipSub, FInvL]
+  | x :: xs, y :: ys, fl, h => by
+    intro v hv
+    simp only [zipSub, List.mem_cons] at hv
+    rcases hv with rfl | hv
+    · intro hfl
+      obtain ⟨hx, hy⟩ := h hfl
+      exact Int.dvd_sub (hx x (by simp)) (hy y (by simp))
+    · exact inv_zipSub xs ys fl (fun hfl => ⟨fun v hv => (h hfl).1 v (by simp [hv]), fun v hv => (h hfl).2 v (by simp [hv])⟩) v hv
+
+theorem dvd_tzF (fuel n : Nat) : 2 ^ tzF fuel n ∣ n := by
+  induction fuel generalizing n with
+  | zero => simp [tzF]
+  | succ k ih =>
+    unfold tzF
+    split
+    · simp
+    · rename_i h
+      have h2 : 2 ∣ n := by omega
+      obtain ⟨m, rfl⟩ := h2
+      have : 2 * m / 2 = m := by omega
+      rw [this, Nat.add_comm, pow_succ, Nat.mul_comm]
+      exact Nat.mul_dvd_mul_left 2 (ih m)
+
+theorem zOf_le (f : Nat) (B : Int) : zOf f B ≤ f := by
+  unfold zOf; split <;> omega
+
+theorem dvd_zOf (f : Nat) (B : Int) : (2 : Int) ^ zOf f B ∣ B := by
+  unfold zOf
+  split
+  · simp
+  · have h1 : 2 ^ (min f (tz B.natAbs)) ∣ B.natAbs :=
+      dvd_trans (pow_dvd_pow 2 (Nat.min_le_right _ _)) (dvd_tzF _ _)
+    have : ((2 ^ (min f (tz B.natAbs)) : Nat) : Int) ∣ B := Int.natCast_dvd.mpr h1
+    simpa using this
+
 end MpycV.Fxp
